@@ -13,6 +13,10 @@
                boundary below or above the fuel), a2 = lower|control|upper with every position of the control bottom and top
                relative to that plane (on it, within the minimum size above or below it, far from it), no a3
      "planes2" a1 = lower|lower'|fuel|upper|upper' (planes on both sides), a2 as in "planes", no a3
+     "outlier" a1 = lower|fuel|upper (height 10: planes 4 and 7), a2 = control within one unit of it, a3 = fuel with three blocks
+               anywhere: three meshes enter average1DWithinTolerance; where a3 is more than 20 % away it is dropped and the
+               common mesh must be the mean of the two that remain ("outlierAll": more a1 / a2 variants).  Cores in which all
+               three remain (thirds) or a comparison sits exactly on the tolerance are not enumerated.
    min is the requested minimum cell size in half units.
 
    Outcomes: "avg" (average1DWithinTolerance raised: nothing near the mean), "anchors" (_filterMesh raised: two anchors
@@ -34,13 +38,21 @@ CasesPlanes == {[fam |-> "planes", a1 |-> Asm(<<t[1], t[2], t[3], HC>>, b), a2 |
                 t \in Trips, b \in {2, 3}, k \in Pairs, m \in Mins}
 CasesPlanes2 == {[fam |-> "planes2", a1 |-> Asm(<<t[1], t[2], t[3], t[4], HC>>, 3), a2 |-> CtrlOf(k, 0), a3 |-> None3, min |-> m] :
                 t \in Quads, k \in Pairs, m \in Mins}
-Cases == (IF "avg" \in Families THEN CasesAvg ELSE {}) \cup (IF "planes" \in Families THEN CasesPlanes ELSE {})
+Near(f) == {k \in Pairs : AbsI(k[1] - f[1]) <= 1 /\ AbsI(k[2] - f[2]) <= 1}
+CasesOutlier(fs, few) ==
+    {[fam |-> "outlier", a1 |-> Asm(<<f[1], f[2], HC>>, 2), a2 |-> Asm(<<k[1], k[2], HC>>, 2), a3 |-> Asm(<<g[1], g[2], HC>>, 2), min |-> m] :
+        f \in fs, k \in {k \in Pairs : \E f \in fs : k \in Near(f) /\ (few => k[1] = f[1])}, g \in Pairs, m \in Mins}
+Cases == (IF "outlier" \in Families THEN CasesOutlier({<<4, 7>>}, TRUE) ELSE {})
+         \cup (IF "outlierAll" \in Families THEN CasesOutlier({<<4, 7>>, <<5, 8>>}, FALSE) ELSE {})
+         \cup (IF "avg" \in Families THEN CasesAvg ELSE {}) \cup (IF "planes" \in Families THEN CasesPlanes ELSE {})
          \cup (IF "planes2" \in Families THEN CasesPlanes2 ELSE {})
-Init == c \in Cases /\ (Len(c.a2.t) = 3 \/ c.a2.t[3] > c.a2.t[2])
-Next == UNCHANGED c
-
 Present == SelectSeq(<<c.a1, c.a2, c.a3>>, LAMBDA a : a.t # <<>>)
 Rows == LET same == SelectSeq(Present, LAMBDA a : Len(a.t) = Len(c.a1.t)) IN [i \in 1..Len(same) |-> same[i].t]
+Init == /\ c \in Cases /\ (Len(c.a2.t) = 3 \/ c.a2.t[3] > c.a2.t[2])
+        /\ c.fam = "outlier" => (c.a2.t \in {<<k[1], k[2], HC>> : k \in Near(<<c.a1.t[1], c.a1.t[2]>>)}
+                                 /\ ~Borderline(Rows, 1, 5) /\ Len(KeptRows(Rows, 1, 5)) <= 2)
+Next == UNCHANGED c
+
 Avg  == AvgTol(Rows, 1, 5, 2)                                  \* tolerance 0.2, means in half units (at most two rows)
 Span(a) == <<2 * (IF a.b = 1 THEN 0 ELSE a.t[a.b - 1]), 2 * a.t[a.b]>>
 FuelSpans == {Span(c.a1)} \cup (IF c.a3.t = <<>> THEN {} ELSE {Span(c.a3)})
@@ -51,7 +63,12 @@ Outcome == IF ~Avg.ok THEN "avg" ELSE IF ~D.ok THEN "anchors" ELSE "mesh"
 Boundaries == Bottoms(FuelSpans) \cup Tops(FuelSpans) \cup Bottoms(CtrlSpans) \cup Tops(CtrlSpans)
 Candidates == Common \cup Boundaries
 
-AtMostTwoRows      == Len(Rows) \in {1, 2}
+AtMostTwoRows      == Len(KeptRows(Rows, 1, 5)) \in {0, 1, 2}
+\* "uses only candidate points": the average mesh is the mean of the meshes that remain, each within 20 % of it
+AverageIsMeanOfKeptRows ==
+    Avg.ok => LET kept == KeptRows(Rows, 1, 5) IN
+              /\ \A i \in 1..Len(Avg.mesh) : Avg.mesh[i] * Len(kept) = 2 * ColSum(kept, i)
+              /\ \A r \in 1..Len(kept) : \A i \in 1..Len(Avg.mesh) : 5 * AbsI(2 * kept[r][i] - Avg.mesh[i]) <= Avg.mesh[i]
 StrictlyIncreasing == Outcome = "mesh" => \A i \in 1..(Len(D.mesh) - 1) : D.mesh[i] < D.mesh[i + 1]
 OnlyCandidates     == Outcome = "mesh" => SeqSet(D.mesh) \subseteq Candidates
 NoThinCells        == Outcome = "mesh" => \A i \in 1..(Len(D.mesh) - 1) : D.mesh[i + 1] - D.mesh[i] >= c.min
@@ -73,5 +90,6 @@ TopKept == Outcome = "mesh" => (2 * HC \in SeqSet(D.mesh) \/ \E y \in SeqSet(D.m
 NearPlane == {<<x, p>> \in (Bottoms(CtrlSpans) \cup Tops(CtrlSpans)) \X (Common \ Boundaries) : x # p /\ AbsI(x - p) < c.min}
 
 Emit == PrintT(ToJson([c |-> c, outcome |-> Outcome, mesh |-> D.mesh, common |-> Avg.mesh, anchors |-> D.anchors,
+                       rows |-> Len(Rows), kept |-> Len(KeptRows(Rows, 1, 5)),
                        near |-> [above |-> Cardinality({n \in NearPlane : n[1] > n[2]}), below |-> Cardinality({n \in NearPlane : n[1] < n[2]})]]))
 =========================================================================================================
